@@ -10,6 +10,8 @@
 """
 from __future__ import annotations
 
+import ast
+
 import itertools
 from typing import Any, Dict, List, Optional, Tuple
 
@@ -273,7 +275,7 @@ def _triple(ctx: Ctx, c: Collector) -> None:
             # rejections: pointwise predicates
             tests = []
             for r in later:
-                own = [g for g in r.guards if not _only_none_guards([g], (NU, NA, NB))]
+                own = [g for g in without_asserts(s, r.guards) if not _only_none_guards([g], (NU, NA, NB))]
                 # the decisive test is the last own guard; earlier own guards are negations of earlier rejections
                 tests.append((r, own))
             # evaluate, for every single-element universe, whether some rejection fires
@@ -319,8 +321,24 @@ def _triple(ctx: Ctx, c: Collector) -> None:
     names = {"missing": "at least two of three given", "infer": "inference equations", "disjoint": "parts must be disjoint", "cover": "union == part_a | part_b", "order": "returns (part_a, part_b)"}
     for k, pr in problems.items():
         c.add("triple", TRIPLE, names[k], VIOLATED if pr else DISCHARGED, "; ".join(sorted(set(pr)))[:500], loc)
+    # an exception class taken from a parameter whose default is ValueError (and that no call site of the package
+    # overrides) is ValueError
+    dflt = {}
+    a_ = fi.node.args
+    pos = a_.posonlyargs + a_.args
+    for prm, d in list(zip(pos[len(pos) - len(a_.defaults):], a_.defaults)) + [(x, d) for x, d in zip(a_.kwonlyargs, a_.kw_defaults) if d is not None]:
+        if isinstance(d, ast.Name):
+            dflt[prm.arg] = d.id
+    overridden = set()
+    for f2 in analysis_units(ctx.prog):
+        for e in summarise(ctx.prog, f2).of_kind("call"):
+            if e.term[1] == T.glob(TRIPLE):
+                overridden |= {k for k, _ in e.term[3]}
+                if len(e.term[2]) > 6:
+                    overridden.add("*")
     for r in raises:
         okv = r.term[0] == "call" and r.term[1] == T.glob("ValueError")
+        okv = okv or (r.term[0] == "call" and r.term[1][0] == "var" and dflt.get(r.term[1][1]) == "ValueError" and r.term[1][1] not in overridden and "*" not in overridden)
         if not okv:
             c.bad("triple", TRIPLE, "rejections are ValueError", f"raises {T.show(r.term)[:60]}", ctx.loc(fi, r))
 
@@ -370,6 +388,8 @@ def _parse_attrs(ctx: Ctx, c: Collector) -> None:
             return (t[2][1] in present) == (t[1] == "in")
         if t[0] == "call" and t[1] == ("attr", desc, "get") and t[2] and t[2][0] == T.const("any_inputs"):
             return anyin
+        if t[0] == "cmp" and t[1] in ("in", "notin") and t[2] == typ and t[3][0] in ("glob", "tuple", "bag"):
+            return t[1] == "in"           # the table only ranges over the three simulator types
         raise Unknown(f"condition {T.show(t)[:80]} not understood")
 
     def aeval(t: Term, combo) -> str:
@@ -390,6 +410,13 @@ def _parse_attrs(ctx: Ctx, c: Collector) -> None:
             return aeval(t[2][1], combo) if len(t[2]) > 1 else "None"
         if t[0] in ("phi", "ifexp"):
             return aeval(t[2], combo) if ceval(t[1], combo) else aeval(t[3], combo)
+        if t[0] == "idx" and t[2][0] == "const" and isinstance(t[2][1], int):
+            # an element of a (conditionally chosen) tuple of defaults
+            base = T.strip(t[1])
+            while base[0] in ("phi", "ifexp"):
+                base = T.strip(base[2] if ceval(base[1], combo) else base[3])
+            if base[0] == "tuple" and -len(base[1]) <= t[2][1] < len(base[1]):
+                return aeval(base[1][t[2][1]], combo)
         if t[0] == "or" and len(t[1]) == 2:
             # value-level `a or b`: b replaces a falsy a (None, an empty collection)
             left = aeval(t[1][0], combo)
@@ -449,6 +476,8 @@ def _parse_attrs(ctx: Ctx, c: Collector) -> None:
     odd = []
     for r in s.of_kind("raise"):
         gt = T.guard_term(r.guards[-1])
+        if gt[0] == "cmp" and gt[1] == "notin" and gt[2] == typ:
+            continue          # an unknown simulator type is rejected up front (it crashed further down before)
         conj = list(gt[1]) if gt[0] == "and" else [gt]
         tys = [x for x in conj if x[0] == "cmp" and x[1] == "==" and typ in (x[2], x[3])]
         nes = [x for x in conj if x[0] == "cmp" and x[1] == "!=" and EMPTY in (x[2], x[3])]
